@@ -1311,6 +1311,30 @@ func stripSensitiveHeadersOnRedirect(req *Request, initialHost []byte, redirectU
 	req.Header.Del(HeaderProxyAuthenticate)
 	req.Header.Del(HeaderProxyAuthorization)
 	req.Header.Del(HeaderWWWAuthenticate)
+
+	if req.Header.disableNormalizing {
+		// With header name normalization disabled Del matches names byte for
+		// byte, so a credential the caller stored as e.g. "authorization" would
+		// survive the calls above. Header names are case-insensitive.
+		h := req.Header.h
+		n := len(h)
+		for i := 0; i < n; i++ {
+			if isSensitiveRedirectHeader(h[i].key) {
+				h[i], h[n-1] = h[n-1], h[i]
+				n--
+				i--
+			}
+		}
+		req.Header.h = h[:n]
+	}
+}
+
+func isSensitiveRedirectHeader(key []byte) bool {
+	return caseInsensitiveCompare(key, strAuthorization) ||
+		caseInsensitiveCompare(key, s2b(HeaderCookie2)) ||
+		caseInsensitiveCompare(key, s2b(HeaderProxyAuthenticate)) ||
+		caseInsensitiveCompare(key, s2b(HeaderProxyAuthorization)) ||
+		caseInsensitiveCompare(key, s2b(HeaderWWWAuthenticate))
 }
 
 // shouldStripSensitiveHeadersOnRedirect defines the trust boundary for
